@@ -335,6 +335,8 @@ def get_blob(dgram: bytes, start_index: int) -> Tuple[bytes, int]:
       ParseError if the datagram could not be parsed.
     """
     size, int_offset = get_int(dgram, start_index)
+    if size < 0:
+        raise OscTypeParseError('Blob size is negative')
     # Make the size a multiple of 32 bits.
     total_size = size + (-size % _BLOB_DGRAM_PAD)
     end_index = int_offset + size
